@@ -153,6 +153,9 @@ type genCtx struct {
 	// whose type is still a type variable would be unified with the wrong type.
 	noMetric  int
 	openDecos []*DecoDef // decorators whose decorated block is being generated
+	// lastKeys remembers the key expressions of the latest write to a
+	// dimensioned metric, so that del / reads can address a datum that exists.
+	lastKeys map[*Metric][]Expr
 }
 
 func (g *genCtx) f(name string) { g.feat[name]++ }
@@ -326,6 +329,33 @@ func (g *genCtx) capref(c capVar) *Capref {
 	return &Capref{Pat: c.pat, Idx: c.idx, Named: named, T: c.t}
 }
 
+// keysFor returns key expressions for a write (fresh ones, remembered) or for a
+// del / read (often the remembered ones, when their captures are literal-only).
+func (g *genCtx) keysFor(m *Metric, write bool) []Expr {
+	if g.lastKeys == nil {
+		g.lastKeys = map[*Metric][]Expr{}
+	}
+	if !write {
+		if ks, ok := g.lastKeys[m]; ok && g.r.Intn(5) < 3 {
+			return ks
+		}
+		return g.keyExprs(m)
+	}
+	ks := g.keyExprs(m)
+	constant := true
+	for _, k := range ks {
+		switch k.(type) {
+		case *StrLit, *IntLit:
+		default:
+			constant = false
+		}
+	}
+	if constant && len(ks) > 0 {
+		g.lastKeys[m] = ks
+	}
+	return ks
+}
+
 func (g *genCtx) keyExprs(m *Metric) []Expr {
 	g.noMetric++
 	defer func() { g.noMetric-- }()
@@ -357,6 +387,17 @@ func (g *genCtx) intLeaf() Expr {
 	case k == 6 && g.timeSet:
 		g.f("timestamp")
 		return &Call{Name: "timestamp", T: TInt}
+	case k == 7 && g.noMetric == 0 && g.r.Intn(2) == 0:
+		// m++ / m-- used for its value
+		m := g.metric("", TInt, ev.PickOne(g.r, []int{0, 0, 1}))
+		if m.Type == TInt && m.Kind != "histogram" {
+			op := "++"
+			if g.r.Intn(4) == 0 && m.Kind != "counter" {
+				op = "--"
+			}
+			g.f("inc-as-value" + op)
+			return &IncExpr{M: m, Keys: g.keysFor(m, true), Op: op}
+		}
 	}
 	return &IntLit{ev.PickOne(g.r, smallInts)}
 }
@@ -677,6 +718,26 @@ func (g *genCtx) condition() (Expr, []capVar) {
 		}
 		g.f("cond-pattern||")
 		return &Bin{Op: "||", L: &PatCond{p}, R: rhs, T: TBool}, deadCaps(p)
+	case k == 15 && len(g.caps) > 0 && !strings.Contains(g.caps[len(g.caps)-1].pat.Regex, "/"):
+		// e =~ /re/ with the SAME regex text as an enclosing pattern, applied to
+		// another subject: its captures shadow the outer ones inside, and the
+		// outer ones must be intact again afterwards
+		outer := g.caps[len(g.caps)-1].pat
+		p := &Pattern{ID: g.npat, Regex: outer.Regex, Groups: outer.Groups, Parts: []PatPart{{Lit: outer.Regex}}}
+		g.npat++
+		var subj Expr = &StrLit{"a=7 b=zz c=1.5 d=-3 e=tok f=2.5 t=2021-03-04"}
+		switch r.Intn(3) {
+		case 0:
+			subj = &Call{Name: "getfilename", T: TString}
+		case 1:
+			if cs := g.capsOf(TString); len(cs) > 0 {
+				if cr := g.capref(ev.PickOne(r, cs)); cr != nil {
+					subj = cr
+				}
+			}
+		}
+		g.f("match-same-text-as-outer")
+		return &Match{E: subj, Pat: p}, mkCaps(p)
 	case k < 15:
 		// e =~ /re/
 		var c Expr
@@ -855,7 +916,7 @@ func (g *genCtx) simple() Stmt {
 			g.noMetric++
 			defer func() { g.noMetric-- }()
 		}
-		return &Assign{M: m, Keys: g.keyExprs(m), Op: "=", E: g.exprOf(t, 2)}
+		return &Assign{M: m, Keys: g.keysFor(m, true), Op: "=", E: g.exprOf(t, 2)}
 	case k < 55:
 		t := ev.PickOne(r, []Type{TInt, TInt, TInt, TFloat, TString})
 		m := g.metric("", t, ev.PickOne(r, []int{0, 0, 1, 2}))
@@ -877,7 +938,7 @@ func (g *genCtx) simple() Stmt {
 			return g.incOrAdd(g.metric("", TInt, 1))
 		}
 		m := ev.PickOne(r, cands)
-		d := &Del{M: m, Keys: g.keyExprs(m)}
+		d := &Del{M: m, Keys: g.keysFor(m, false)}
 		if r.Intn(3) == 0 {
 			d.After = ev.PickOne(r, []time.Duration{time.Hour, 90 * time.Minute, 30 * time.Second, 24 * time.Hour})
 			g.f("del-after")
@@ -920,7 +981,7 @@ func (g *genCtx) incOrAdd(m *Metric) Stmt {
 			op = "--"
 		}
 		g.f("incdec" + op)
-		return &IncDec{M: m, Keys: g.keyExprs(m), Op: op}
+		return &IncDec{M: m, Keys: g.keysFor(m, true), Op: op}
 	}
 	g.f("add-assign-" + m.Type.String())
 	if m.Type == TString {
@@ -943,6 +1004,9 @@ func usedMetrics(p *Program) map[*Metric]bool {
 	ve = func(e Expr) {
 		switch n := e.(type) {
 		case *MetricRead:
+			used[n.M] = true
+			ves(n.Keys)
+		case *IncExpr:
 			used[n.M] = true
 			ves(n.Keys)
 		case *Bin:
@@ -1031,6 +1095,11 @@ func anchoredT(e Expr) Type {
 // their writes (e.g. only ever assigned from other metrics).
 func unanchored(p *Program) []*Metric {
 	anch := map[*Metric]bool{}
+	inc := func(e Expr) {
+		if n, ok := e.(*IncExpr); ok {
+			anch[n.M] = true
+		}
+	}
 	var vs func([]Stmt)
 	vs = func(ss []Stmt) {
 		for _, s := range ss {
@@ -1048,6 +1117,12 @@ func unanchored(p *Program) []*Metric {
 				if n.M.Kind == "histogram" || anchoredT(n.E) == n.M.Type {
 					anch[n.M] = true
 				}
+				WalkExpr(n.E, inc)
+			case *ExprStmt:
+				WalkExpr(n.E, inc)
+			}
+			if c, ok := s.(*Cond); ok {
+				WalkExpr(c.C, inc)
 			}
 		}
 	}
